@@ -1,5 +1,5 @@
 (* C17 - Reported peak T3 rate brackets the true peak within one jerk increment.  Statements only. *)
-From Plotink Require Import Base.Prelude Spec.Firmware Model.EbbCalc Model.EbbCalcRnd Proofs.PeakProofs Corr.C17 Proofs.PeakOracle Proofs.TmidFloat.
+From Plotink Require Import Base.Prelude Spec.Firmware Model.EbbCalc Model.EbbCalcRnd Proofs.PeakProofs Corr.C17 Proofs.PeakOracle Proofs.TmidFloat Base.Rnd Proofs.RndProofs.
 Open Scope Z_scope.
 
 (* never exceeds the true peak: the reported value is the absolute rate of some tick 1..T *)
@@ -52,9 +52,19 @@ Example C17_float_nonvacuous :
   Z.abs (rate_t3 100 1000 500 (-10)) = 1249.
 Proof. cbv zeta. split; [intros x y E; exact E|]. split; [intros x _; reflexivity|]. split; [intros x y L; exact L|]. repeat split; vm_compute; reflexivity. Qed.
 
+(* the executable round-to-nearest-even at 53 bits (Base.Rnd.round_ne 53: the operator the float models of C11 / C12 are executed with, bit for
+   bit against CPython, and compared with CPython's operations in Corr/Rounding.v) is such an operator (Proofs/RndProofs.v) *)
+Theorem C17_float_exact_rne : forall time rate accel jerk, 0 <= time <= 2 ^ 32 -> Z.abs rate <= 2 ^ 34 -> Z.abs accel <= 2 ^ 32 -> Z.abs jerk <= 2 ^ 32 ->
+  Z.abs (2 * accel - jerk) * time <= 2 ^ 50 -> Z.abs jerk * time * time <= 2 ^ 50 ->
+  max_rate_t3_r (round_ne 53) time rate accel jerk = max_rate_t3 time rate accel jerk.
+Proof.
+  apply C17_float_exact; [intros x y; apply round_ne_comp; lia|intros x R; apply round_ne_exact; [lia|exact R]|intros x y; apply round_ne_mono; lia].
+Qed.
+
 Print Assumptions C17_is_a_tick.
 Print Assumptions C17_ends.
 Print Assumptions C17_within_jerk.
 Print Assumptions C17_limit.
 Print Assumptions C17_oracle_is_peak.
 Print Assumptions C17_float_exact.
+Print Assumptions C17_float_exact_rne.
